@@ -235,8 +235,39 @@ template <typename T> void one_case(const char* tname, uint64_t ci, const std::s
 }
 }  // namespace
 
+// ---- stated exclusion with its own obligation (C01 quantifier: "logical buffers whose size member exceeds capacity (Write must reject those)"):
+// the size member may be a narrow signed integer, in which case an out-of-range count is negative. GetSize of such an object feeds Prepare; whatever
+// it returns, Write into a buffer of exactly that many bytes must end in an error without touching a byte beyond the buffer (ASan on an exact-size buffer).
+namespace formtypes {
+struct NegI8 { std::string name; std::uint16_t data[5]{}; std::int8_t n{0}; float f{1.5f}; NOP_STRUCTURE(NegI8, name, (data, n), f); };
+struct NegI16 { std::vector<std::string> names; std::uint32_t data[100]{}; std::int16_t n{0}; NOP_STRUCTURE(NegI16, names, (data, n)); };
+struct NegInt { std::string name; std::string items[3]; int n{0}; NOP_STRUCTURE(NegInt, name, (items, n)); };
+}
+template <typename T, typename Set> static void oversize_case(const char* tname, const std::string& prop, Set set_count, std::initializer_list<long> counts) {
+  for (long cnt : counts) for (size_t lead : {(size_t)0, (size_t)90, (size_t)140, (size_t)300, (size_t)70000}) {
+    T v; set_count(v, cnt, lead);
+    set_current("%s", case_desc((std::string("forms:") + tname).c_str(), cnt, "oversize-size-member", J().i("count", cnt).u("leading_bytes", lead).str()).c_str());
+    nop::Serializer<LogWriter*> probe{nullptr}; size_t gs = probe.GetSize(v);
+    rep().count("forms_oversize_size_member_writes"); rep().note(hash_combine(hash_str(tname), hash_combine((uint64_t)cnt, lead)), true);
+    size_t cap = gs < (4u << 20) ? gs : (4u << 20);
+    { ExactBuf b; b.alloc(cap); nop::Serializer<nop::BufferWriter> s{b.p, cap}; auto st = s.Write(v);
+      if (st) rep().violation(fmt("%s:forms:oversize-logical-buffer-accepted:%s", prop.c_str(), tname), fmt("%s with size member %ld (capacity exceeded) was written successfully", tname, cnt), case_desc((std::string("forms:") + tname).c_str(), cnt, "oversize-size-member", "{}")); }
+    { ExactBuf b; b.alloc(cap); nop::Serializer<nop::PedanticBufferWriter> s{b.p, cap}; auto st = s.Write(v);
+      if (st) rep().violation(fmt("%s:forms:oversize-logical-buffer-accepted:%s", prop.c_str(), tname), fmt("%s with size member %ld (capacity exceeded) was written successfully (pedantic writer)", tname, cnt), case_desc((std::string("forms:") + tname).c_str(), cnt, "oversize-size-member", "{}")); }
+    clear_current();
+  }
+}
+static void oversize_stage(const std::string& prop) {
+  if (!mine(900777) && !args().replay()) return;
+  if (!args().only_type.empty() && args().only_type.compare(0, 6, "forms:") != 0) return;
+  oversize_case<formtypes::NegI8>("NegI8", prop, [](formtypes::NegI8& v, long c, size_t lead) { v.name.assign(lead, 'n'); v.n = (std::int8_t)c; }, {6, 127, -1, -2, -63, -64, -128});
+  oversize_case<formtypes::NegI16>("NegI16", prop, [](formtypes::NegI16& v, long c, size_t lead) { v.names.assign(lead / 10, std::string(9, 's')); v.n = (std::int16_t)c; }, {101, 32767, -1, -100, -32768});
+  oversize_case<formtypes::NegInt>("NegInt", prop, [](formtypes::NegInt& v, long c, size_t lead) { v.name.assign(lead, 'n'); v.n = (int)c; }, {4, -1, -2});
+}
+
 // called by the codec engine for C01, C05, C06 and C10
 void forms_stage(const std::string& prop) {
+  if (prop == "C01" || prop == "C06") oversize_stage(prop);
   int n = args().thorough() ? 400 : 40;
   Sch tab = SchemaOf<formtypes::Tab>();
   { const char nm[] = "verif.forms.Tab"; tab.hash = siphash24((const uint8_t*)nm, sizeof(nm), 0xbaadf00ddeadbeefull, 0x0123456789abcdefull); }
